@@ -1,5 +1,7 @@
 """C15  clean deletes only unprotected declared outputs of the selected targets."""
 
+import os
+
 from hypothesis import strategies as st
 
 from vlib import gen, hist, model, project
@@ -15,12 +17,13 @@ RULE = ("case = well-formed workflow (2-6, thorough 9 targets) with per-target p
         "planted logs, spec hashing on or off with records from a real first run, options --all/--force, name patterns, "
         "prompt answer y/n/empty. Oracle from the description: deletable = union over selected targets (pattern match, "
         "minus endpoints unless --all) of outputs minus that target's protected paths; after the command removed files "
-        "== existing & deletable exactly, every other file byte- and mtime-identical, spec-hash records of selected "
+        "== existing & deletable exactly, every other file byte- and mtime-identical (also the content of a directory "
+        "standing where a declared output file would be: clean carries on with the other outputs), spec-hash records of selected "
         "targets erased and all others kept; a declined prompt leaves the snapshot identical and exits non-zero. "
         "Non-trivial: a selected target has both a protected and an unprotected existing output and an existing "
         "output belongs to an unselected target. Distinct = SHA-1 of canonical case JSON.")
 ASSUMPTIONS = [
-    "directories are never declared as outputs (DESIGN 6.3)",
+    "a directory may stand where a declared output file would be: whether the directory itself goes is not decided by the property, its content is not a declared output and must stay, and the other outputs are still removed",
     "spec-hash records are read from .gwf/spec-hashes.json as a JSON object keyed by target name (the observation point named by the property)",
 ]
 BUDGET = {
@@ -55,6 +58,8 @@ def _case(draw, tier):
         "patterns": draw(st.one_of(st.just([]), gen.patterns(names), gen.patterns(names))),
         "answer": draw(st.sampled_from(["y\n", "n\n", "\n", "y\n"])),
         "hashing": draw(st.booleans()),
+        # one declared output that does not exist as a file is a directory (with a file in it) when clean runs
+        "dir_output": draw(st.one_of(st.none(), st.none(), st.integers(0, 9))),
     }
 
 
@@ -74,6 +79,15 @@ def run_case(case):
         hist.prepopulate(proj, R, {})
         proj.set_files({p: desc["files"].get(p) for p in R.producers})
         proj.set_files({"unrelated.txt": 1, "d/keep.me": 2, "x/other.dat": 1})
+        if case.get("dir_output") is not None:
+            cand = sorted(p for p in R.producers if desc["files"].get(p) is None
+                          and not any(q != p and q.startswith(p + "/") for q in desc["files"]))
+            if cand:
+                dpath = cand[case["dir_output"] % len(cand)]
+                os.makedirs(proj.path(dpath), exist_ok=True)
+                with open(proj.path(os.path.join(dpath, "inner.txt")), "w") as f:
+                    f.write("not a declared output\n")
+                labels.add("output-is-a-directory")
         for n in names[:2] + ["Gone"]:
             with open(proj.path(f".gwf/logs/{n}.stdout"), "w") as f:
                 f.write("log\n")
